@@ -673,7 +673,7 @@ def agg_task(raises):
             check_witness(c, net, agg, l, sm["seg"], sm["w"], "message", sm["some"])
 
     name = f"{NETQ}:Network.is_valid<whole function,raises={raises}"
-    out = [Task(name + ",valid or raising>", run, props=("C06",), func=f"{NETQ}:Network.is_valid", config=f"aggregate over a symbolic graph, raises={raises}")]
+    out = [Task(name + ",valid or raising>", run, props=("C06", "C07"), func=f"{NETQ}:Network.is_valid", config=f"aggregate over a symbolic graph, raises={raises}")]
     if not raises:
         out.append(Task(name + ",invalid verdict>", run_invalid, props=("C06",), func=f"{NETQ}:Network.is_valid", config="aggregate over a symbolic graph, invalid verdict"))
     return out
